@@ -37,6 +37,9 @@ func genScript(r *rand.Rand, handler string, typ int, isHTTP bool, hasCID bool) 
 	default:
 		pre = append(pre, "chg:a", "add:1")
 	}
+	if chance(r, 8) {
+		pre = append(pre, "evraw:raw")
+	}
 	if chance(r, 4) {
 		// an event that is invalid for the resource type
 		pre = append(pre, "chg:x", "add:0", "rm:1")
